@@ -11,7 +11,7 @@ type Val struct {
 	K   byte   // 'u' unsigned, 'i' signed, 'f' float32 bits, 'd' float64 bits, 's' string, 't' time, 'l' latitude, 'g' longitude, 'a' array
 	N   uint64 // u: value; i: uint64(int64 value); f/d: IEEE bits; t: unix seconds; l/g: uint64(int64 semicircles)
 	Ns  int32  // t: nanoseconds
-	Off int32  // t: zone offset east of UTC in seconds
+	Off int64  // t: zone offset east of UTC in seconds
 	S   string // s: value; t: zone name
 	Nil bool   // a: nil slice
 	Inv bool   // l/g: Invalid() reported true
